@@ -6,6 +6,7 @@ FlexModel/Sec/Spec.lean; helper lemmas: FlexModel/Sec/Lemmas.lean.
 import FlexModel.Sec.Lemmas
 import FlexModel.Sec.Groups
 import Generated.Sec
+import Generated.SecWrites
 
 namespace Props.C09
 open FlexModel.Sec FlexModel.Sec.Store
@@ -116,6 +117,23 @@ theorem accept_requires_validity {cfg : Cfg} (htg : cfg.timeGuard = true) {S S' 
       ∃ t, m.genTime = some t ∧ a.c.start * 1000000 ≤ t ∧ t ≤ a.c.start * 1000000 + a.c.durUs := by
   obtain ⟨a, hmem, hacc, _⟩ := verifyMsg_success h hs
   exact ⟨a, hmem, hacc.certId, hacc.time htg⟩
+
+/-- … after ANY history of library operations, sign operations and received messages on the station (in particular
+    after earlier messages of the same ticket that were accepted): the two acceptance conditions are judged per
+    MESSAGE, in whatever state the history left -/
+theorem accept_conditions_after_any_history {cfg : Cfg} (hpg : cfg.psidGuard = true) (htg : cfg.timeGuard = true)
+    (S0 : Station) (hist : List Op) {S' : Station} {m : Msg} {o : VOut}
+    (h : (S0.run cfg hist).verifyMsg cfg m = (S', .ok o)) (hs : o.report = .success) :
+    ∃ a, a ∈ S'.store.ats ∧ o.certId = some a.c.id ∧ m.psid ∈ a.c.appList ∧
+      ∃ t, m.genTime = some t ∧ a.c.start * 1000000 ≤ t ∧ t ≤ a.c.start * 1000000 + a.c.durUs := by
+  obtain ⟨a, hmem, hacc, _⟩ := verifyMsg_success h hs
+  exact ⟨a, hmem, hacc.certId, hacc.psid hpg, hacc.time htg⟩
+
+/-- regenerated fact (ast pass `gen_sec_writes` of harness/gen_sec.py): no method or module function of
+    verify_service.py on the verification path stores anything that outlives the call – `VerifyService` has no memory
+    of earlier messages, so the model's verdict, a function of (library + sign-service bookkeeping, message), is all
+    there is.  A per-instance cache of "already checked" tickets re-opens this obligation. -/
+theorem acceptance_has_no_memory : Generated.SecWrites.verifyServiceWrites = [] := by decide
 
 /-- … under a ticket that chains to a configured root (closure + acceptance combined, any history before) -/
 theorem accept_requires_chain {U : Cert → Prop} (hinj : IdInj U) {cfg : Cfg} (hg : cfg.allGuard = true)
